@@ -5,7 +5,7 @@ Property theorems only; helper lemmas are in `Lemmas/HostPipeline.lean` (split/j
 reassembly step against `cutLastNl`, validity classes) and the `Lemmas/FwDialogue*.lean` files
 (the `HOST` line between client and helper, shared with C13).
 -/
-import SshuttleModel.Lemmas.HostPipeline
+import SshuttleModel.Lemmas.HostChain
 
 namespace Sshuttle.HostPipeline
 open Sshuttle.FwDialogue
@@ -255,25 +255,111 @@ example : (∀ c ∈ [[97, 44], [49, 46, 50, 46, 51, 46, 52, 10, 98]], c ≠ ([]
       some ([[], [97, 44, 49, 46, 50, 46, 51, 46, 52, 10]], [98]) := by
   decide   -- "a," then "1.2.3.4\nb": one empty payload, then the complete line; "b" is kept
 
-/-- **Exactly once (payload level).** With the reassembly theorem, the concatenation of all
-payloads is the complete-lines part of the scanner's stream; the client splits every payload at
-white space, and since a payload is empty or ends with a newline the entries it sees are
-those of the concatenation: nothing is lost or duplicated at a payload boundary.
-Proved here for the boundary itself: appending a payload that starts a new line to one that
-ends with a newline concatenates the entry lists.  (Missing for the full statement: the
-induction over the record list that `tokens` of the rendered records is the list of records;
-the harness checks that end to end on every case.) -/
-theorem C19_exactly_once_partial : ∀ (a : Bytes) (cur b : Bytes), isWsB 10 = true →
-    tokAux cur (a ++ 10 :: b) = tokAux cur (a ++ [10]) ++ tokAux [] b
-  | [], cur, b, _ => by
-    by_cases hc : cur = [] <;> simp [tokAux, isWsB, hc]
-  | c :: a, cur, b, h => by
-    simp only [List.cons_append, tokAux]
-    by_cases hw : isWsB c = true
-    · by_cases hc : cur = []
-      · simp only [hw, hc, if_true]; exact C19_exactly_once_partial a [] b h
-      · simp only [hw, hc, if_true, if_false, List.cons_append]
-        rw [C19_exactly_once_partial a [] b h]
-    · simp only [hw, if_false]; exact C19_exactly_once_partial a (cur ++ [c]) b h
+/-- A payload boundary after a newline neither merges nor splits entries: the client's
+white-space split of two payloads, the first ending with a newline, is the split of their
+concatenation. -/
+theorem C19_payload_boundary (p q : Bytes) (hp : p = [] ∨ p.getLast? = some 10) :
+    tokens (p ++ q) = tokens p ++ tokens q := tokens_append p q hp
+
+/-! ## 4. The whole chain: scanner → server → tunnel → client → helper -/
+
+/-- **A scanner session.** For every sequence of `found_host` calls — arbitrary code points as
+names and address texts, any lengths, any repetitions — the scanner never hits the recursion
+limit and everything it writes is a sequence of records `name,ip\n` that pass the client's two
+checks (so: ASCII only, lines of at most 253 + 1 + 15 + 1 bytes). -/
+theorem C19_scanner_session : ∀ (calls : List (Str × Str)) (m : HostNames),
+    ∃ (m' : HostNames) (S : Str) (recs : List (Str × Str)),
+      scanAll m calls = some (m', S) ∧ S = (recs.map recLine).flatten ∧
+      ∀ r ∈ recs, validName r.1 = true ∧ validIp r.2 = true
+  | [], m => ⟨m, [], [], rfl, rfl, by simp⟩
+  | c :: cs, m => by
+    obtain ⟨⟨m1, o1⟩, h1⟩ := C19_scanner_no_recursion_error m c.1 c.2
+    obtain ⟨recs1, ho1, hv1⟩ := C19_scanner_emits_valid 3 m c.1 c.2 m1 o1 h1
+    obtain ⟨m2, S2, recs2, h2, hS2, hv2⟩ := C19_scanner_session cs m1
+    refine ⟨m2, o1 ++ S2, recs1 ++ recs2, ?_, ?_, ?_⟩
+    · simp [scanAll, h1, h2]
+    · simp [ho1, hS2]
+    · intro r hr
+      rcases List.mem_append.mp hr with h | h
+      · exact hv1 r h
+      · exact hv2 r h
+
+/-- **The chain, end to end.** For every sequence of `found_host` calls and every cutting of the
+scanner's output into reads of 1…4096 bytes (any sizes, any interleaving of short reads; a line
+may be spread over any number of reads): the server never stops (no read fails `Mux.send`'s
+length assertion), the `leftover` is empty when the stream has been read, and — the HOST_LIST
+frames crossing the tunnel intact and in order (C07, used as the step from `feed`'s payload list
+to the client's calls) — the client raises nothing, and the updates the helper finally acts on
+are **exactly the records the scanner emitted**: each one once, in order, verbatim, every one
+representable, and nothing else; the helper ends at end of input. -/
+theorem C19_chain (calls : List (Str × Str)) (chunks : List Bytes)
+    (hc : ∀ c ∈ chunks, c ≠ [] ∧ c.length ≤ Generated.HOSTWATCH_RECV) :
+    ∃ (m : HostNames) (S : Str) (recs : List (Str × Str)),
+      scanAll [] calls = some (m, S) ∧ S = (recs.map recLine).flatten ∧
+      (∀ r ∈ recs, validName r.1 = true ∧ validIp r.2 = true) ∧
+      (chunks.flatten = S →
+        ∃ ps outs, feed [] chunks = some (ps, []) ∧ mapOpt onHostList ps = some outs ∧
+          hostLoop (helperLines (outs.map List.flatten).flatten) = (recs, .eof)) := by
+  obtain ⟨m, S, recs, hscan, hS, hv⟩ := C19_scanner_session calls []
+  refine ⟨m, S, recs, hscan, hS, hv, ?_⟩
+  intro hflat
+  -- the stream as a list of bounded lines
+  have hS' : S = ((recs.map recBody).map (· ++ [10])).flatten := by
+    rw [hS, List.map_map]; congr 1; apply List.map_congr_left; intro r _; exact recLine_eq r
+  have hbodies : ∀ b ∈ recs.map recBody, b.length ≤ Gen.C19.NAME_MAX + 16 := by
+    intro b hb
+    obtain ⟨r, hr, rfl⟩ := List.mem_map.mp hb
+    exact (recBody_props r (hv r hr).1 (hv r hr).2).2.2.2
+  have hbound : Gen.C19.NAME_MAX + 16 + Generated.HOSTWATCH_RECV ≤ Generated.SEND_MAX_LEN := by decide
+  -- the server does not stop
+  obtain ⟨⟨ps, lo⟩, hfeed⟩ := C19_reassembly_no_stop chunks [] hc (by simp) (by
+    intro a seg b hab hs
+    have := seg_bound _ (recs.map recBody) hbodies a seg b (by rw [← hS', ← hflat]; simpa using hab) hs
+    omega)
+  obtain ⟨hps, hlo, hshape⟩ := C19_reassembly chunks [] ps lo (fun c hcm => (hc c hcm).1) (by simp) hfeed
+  -- the stream is complete lines only
+  have hcut : cutLastNl S = (S, []) := by
+    have hend : S = [] ∨ S.getLast? = some 10 := by
+      rcases List.eq_nil_or_concat recs with rfl | ⟨init, r, rfl⟩
+      · left; simp [hS]
+      · right
+        rw [hS, List.concat_eq_append, List.map_append, List.flatten_append]
+        simp [recLine, List.getLast?_concat, ← List.append_assoc]
+    simpa using cut_unique S [] (by simp) hend
+  simp only [List.nil_append, hflat, hcut] at hps hlo
+  subst hlo
+  -- the client
+  let pairs := fun p : Bytes => (tokens (stripB p)).filterMap entry
+  have hpairs : ps.flatMap pairs = recs := client_pairs ps recs hv hshape (by rw [hps, hS])
+  have hon : mapOpt onHostList ps = some (ps.map fun p => hostLines (pairs p)) := by
+    apply mapOpt_ok
+    intro p _
+    obtain ⟨_, rfl, h2, _⟩ := C19_client_never_fatal p 0
+    exact h2
+  refine ⟨ps, _, hfeed, hon, ?_⟩
+  have hok : ∀ h ∈ recs, HostOk h := fun h hh =>
+    ⟨(validName_plain _ (hv h hh).1).2.2, validIp_ipBytes _ (hv h hh).2⟩
+  rw [List.map_map]
+  have := hostLines_flatMap ps pairs
+  simp only [Function.comp_def] at this ⊢
+  rw [this, hpairs, helperLines_lines _ (hostLines_isLine recs hok)]
+  exact hostLoop_hosts recs hok
+
+example : (∀ c ∈ [[119, 44, 49, 46], [50, 46, 51, 46, 52, 10]], c ≠ ([] : Bytes) ∧ c.length ≤ Generated.HOSTWATCH_RECV) ∧
+    (scanAll [] [([119], [49, 46, 50, 46, 51, 46, 52])]).map (·.2) = some [119, 44, 49, 46, 50, 46, 51, 46, 52, 10] := by
+  decide   -- found_host("w","1.2.3.4") emits "w,1.2.3.4\n", read as "w,1." then "2.3.4\n"
+
+/-- **Never fatal, total.** For every byte string arriving as a HOST_LIST payload — whatever a
+server, hostile or broken, could send — the client's `onhostlist` returns normally (no unpack
+error, no failed `assert`), and every line it sends to the helper is `HOST name,ip\n` with a name
+of 1…253 bytes over `[-A-Za-z0-9_.]` and a dotted-quad address. -/
+theorem C19_never_fatal (payload : Bytes) :
+    ∃ lines, onHostList payload = some lines ∧
+      ∀ l ∈ lines, ∃ name ip, l = HOST_ ++ (name ++ 44 :: ip) ++ [10] ∧ validName name = true ∧ validIp ip = true := by
+  obtain ⟨pairs, _, h2, _, h4⟩ := C19_client_never_fatal payload 0
+  refine ⟨hostLines pairs, h2, ?_⟩
+  intro l hl
+  obtain ⟨h, hh, rfl⟩ := List.mem_map.mp hl
+  exact ⟨h.1, h.2, rfl, (h4 h hh).1, (h4 h hh).2.1⟩
 
 end Sshuttle.HostPipeline
